@@ -97,6 +97,28 @@ def fresh_like(name, ty, cur):
     return v
 
 
+def _obj_fields(st):
+    out = {}
+    for oid, p in st.heap.items():
+        if type(p).__name__ == "ObjP":
+            for f, v in p.fields.items():
+                out[(oid, f)] = v
+    return out
+
+
+def _same(a, b):
+    if a is b:
+        return True
+    if isinstance(a, vals.Ref) and isinstance(b, vals.Ref):
+        return a.oid == b.oid
+    if z3.is_expr(getattr(a, "t", None)) and z3.is_expr(getattr(b, "t", None)):
+        return type(a) is type(b) and a.t.eq(b.t)
+    try:
+        return type(a) is type(b) and a == b
+    except Exception:
+        return False
+
+
 def _heap_gens(st):
     return {oid: getattr(p, "gen", None) for oid, p in st.heap.items()}
 
@@ -195,10 +217,26 @@ def run_loop(ex, node, st, spec, cond_fn, bind_fn, n_term, keep_fn, label):
         if spec.write_frame is not None:
             cs_ref = SpecEval(ex, body_st, env0(body_st, it)).ev(spec.write_frame[0])
             body_st.heap[cs_ref.oid].allowed = list(spec.write_frame[1])
+        fields0 = _obj_fields(body_st)
+        existed = set(body_st.heap)
+        declared = set()
+        for obj_src, fld, _ty in spec.modifies_fields:
+            o = SpecEval(ex, body_st, env0(body_st, 0)).ev(obj_src)
+            declared.add((o.oid, fld))
         for st1, sig in ex.exec_block(node.body, body_st):
             for oid, g in _heap_gens(st1).items():
                 if oid in gens and gens[oid] != g and oid not in allowed:
                     raise Unsupported("heap modification inside an invariant-cut loop (declare it in the loop spec)")
+            # the loop's frame is part of its specification: an object field written by the body but not declared would be
+            # forgotten at the cut (and read with its pre-loop value by the next iteration)
+            for (oid, fld), v in _obj_fields(st1).items():
+                if oid in allowed or (oid, fld) in declared:
+                    continue
+                if oid not in existed:
+                    continue  # an object created inside the body
+                if (oid, fld) not in fields0 or not _same(fields0[(oid, fld)], v):
+                    cname = getattr(getattr(st1.heap[oid], "cls", None), "name", "object")
+                    ex.ctx.oblige(st1, "frame-write", f"{label}:body-writes-only-the-declared-frame: {cname}.{fld}", z3.BoolVal(False), node)
             if spec.write_frame is not None:
                 cs_ref1 = SpecEval(ex, st1, env0(st1, it)).ev(spec.write_frame[0])
                 st1.heap[cs_ref1.oid].allowed = None
